@@ -84,19 +84,19 @@ PQ_V = {
 TEMPLATES = {}  # version -> directory with the files as written by to_parquet (prepared by the parent)
 
 
+def _write_templates(root):
+    import dask_expr as dx
+
+    for v, pdf in PQ_V.items():
+        dx.from_pandas(pdf, npartitions=2).to_parquet(os.path.join(root, f"v{v}"))
+    return True
+
+
 def prepare_templates(root):
     """Write both dataset versions with dask's own writer in a throw-away child process."""
-    import multiprocessing as mp
+    from mc.runner import fork_call
 
-    def work():
-        import dask_expr as dx
-
-        for v, pdf in PQ_V.items():
-            dx.from_pandas(pdf, npartitions=2).to_parquet(os.path.join(root, f"v{v}"))
-
-    p = mp.get_context("fork").Process(target=work)
-    p.start()
-    p.join()
+    fork_call(_write_templates, root)
     for v in PQ_V:
         TEMPLATES[v] = os.path.join(root, f"v{v}")
 
@@ -253,25 +253,25 @@ def evaluate(case):
     """Replay entry point (case = {"hist": [...], "config": {...}}): computes the reference
     observations alone, then the history."""
     ref = {}
-    from mc.runner import pmap
+    from mc.runner import fork_call
 
     own_root = None
     if not TEMPLATES:
         own_root = tempfile.mkdtemp(prefix="c15t_")
         prepare_templates(own_root)
-    singles = []
-    for ev in case["hist"]:
-        if ev[0] in ("optimize", "divisions", "len", "compute"):
-            for v in (0, 1):
-                singles.append({"hist": ([["rewrite", "v1"]] if v else []) + [ev], "config": case.get("config", {})})
-    for it, r in pmap(run_history, [dict(x, fresh=True) for x in singles], chunk=1, nproc=4):
-        for kind, arg, ver, o in r["info"]["obs"]:
-            ref[f"{kind}|{arg}|{ver}"] = o
-    (it, r), = pmap(run_history, [dict(case, ref=ref, fresh=True)], chunk=1, nproc=1)
-    if own_root:
-        shutil.rmtree(own_root, ignore_errors=True)
-        TEMPLATES.clear()
-    return r
+    try:
+        for ev in case["hist"]:
+            if ev[0] in ("optimize", "divisions", "len", "compute"):
+                for v in (0, 1):
+                    single = {"hist": ([["rewrite", "toggle"]] if v else []) + [ev], "config": case.get("config", {}), "fresh": True}
+                    r = fork_call(run_history, single)
+                    for kind, arg, ver, o in r["info"]["obs"]:
+                        ref[f"{kind}|{arg}|{ver}"] = o
+        return fork_call(run_history, dict(case, ref=ref, fresh=True))
+    finally:
+        if own_root:
+            shutil.rmtree(own_root, ignore_errors=True)
+            TEMPLATES.clear()
 
 
 def key(case):
